@@ -921,7 +921,6 @@ pub enum SeeVerdict {
 /// revealed as pieces leave), either side may stop, a king captures only if no enemy
 /// attacker remains. Returns the verdict "net gain for the mover >= 0".
 pub fn see_exact(p: &Pos, m: Mv) -> SeeVerdict {
-    let mut results = [false, false]; // seen false, seen true
     let us = p.stm;
     let victim0 = p.b[m.to as usize].map(|x| see_value(x.k)).unwrap_or(0);
     let mut board = p.clone();
@@ -936,11 +935,11 @@ pub fn see_exact(p: &Pos, m: Mv) -> SeeVerdict {
         Some(k) => see_value(k) - see_value(Kind::P),
         None => 0,
     };
-    // value the opponent can win back by continuing the exchange, for every tie order
-    fn best_reply(board: &Pos, target: Sq, side: Color, out: &mut Vec<i32>) {
-        // returns in `out` the set of achievable "gain for `side`" values under optimal
-        // stop/continue play for each tie-break order (side picks least valuable attacker;
-        // among equals every choice is explored and reported separately)
+    // `out` receives, for every combination of tie-break choices, the value `side` wins back
+    // on `target` under optimal stop/continue play. `unclear` is raised when the answer
+    // hinges on a reading of "the king may not capture onto a defended square" that the
+    // property does not fix (an enemy slider lined up *through* the capturing king).
+    fn best_reply(board: &Pos, target: Sq, side: Color, out: &mut Vec<i32>, unclear: &mut bool) {
         let on_target = board.b[target as usize].unwrap();
         let atk = board.attackers_of(target, side);
         if atk.is_empty() {
@@ -959,38 +958,46 @@ pub fn see_exact(p: &Pos, m: Mv) -> SeeVerdict {
             .collect();
         for c in cands {
             let pc = board.b[c as usize].unwrap();
-            if pc.k == Kind::K && board_attacked_after(board, c, target, side) {
-                // the king may not capture onto a defended square
-                out.push(0);
-                continue;
+            if pc.k == Kind::K {
+                let defended_now = board.attacked(target, side.other());
+                let mut nb = board.clone();
+                nb.b[c as usize] = None;
+                nb.b[target as usize] = Some(pc);
+                let defended_after = nb.attacked(target, side.other());
+                if defended_now != defended_after {
+                    *unclear = true;
+                }
+                if defended_now || defended_after {
+                    // the king may not capture onto a defended square
+                    out.push(0);
+                    continue;
+                }
             }
             let mut nb = board.clone();
             nb.b[c as usize] = None;
             nb.b[target as usize] = Some(pc);
             let mut sub = Vec::new();
-            best_reply(&nb, target, side.other(), &mut sub);
+            best_reply(&nb, target, side.other(), &mut sub, unclear);
             for r in sub {
                 let gain = see_value(on_target.k) - r;
                 out.push(gain.max(0)); // may decline to capture
             }
         }
     }
-    fn board_attacked_after(board: &Pos, from: Sq, target: Sq, side: Color) -> bool {
-        let mut nb = board.clone();
-        let pc = nb.b[from as usize].take().unwrap();
-        nb.b[target as usize] = Some(pc);
-        nb.attacked(target, side.other())
-    }
     let mut replies = Vec::new();
-    best_reply(&board, m.to, us.other(), &mut replies);
+    let mut unclear = false;
+    best_reply(&board, m.to, us.other(), &mut replies, &mut unclear);
+    if unclear {
+        return SeeVerdict::Depends;
+    }
+    let mut results = [false, false];
     for r in replies {
         let total = victim0 + promo_gain - r;
         results[(total >= 0) as usize] = true;
     }
     match (results[0], results[1]) {
-        (true, true) => SeeVerdict::Depends,
         (false, true) => SeeVerdict::Agreed(true),
         (true, false) => SeeVerdict::Agreed(false),
-        (false, false) => SeeVerdict::Depends,
+        _ => SeeVerdict::Depends,
     }
 }
